@@ -168,8 +168,9 @@ def r3_r4_guard_and_target(ctx, rep, R3='C15.R3', R4='C15.R4'):
     fvar = fl.target.id
     dname, dirs, files = [e.id if isinstance(e, ast.Name) else None for e in wl.target.elts]
     consts = m.module('find').constants
-    lits = [(e, pos) for e, pos in path_literals(u, fi.node)
-            if not norm(e).endswith('keepbytecode')]
+    from .common import guard_literals
+    lits = [(e, pos) for e, pos in guard_literals(ctx, fi, u)
+            if not norm(e).endswith('keepbytecode') and "'__pycache__' in" not in norm(e)]
     suffix = [(e, pos) for e, pos in lits if _suffix_test(e, fvar, consts)]
     beside = [(e, pos) for e, pos in lits if _source_beside(e, fvar, files)]
     other = [norm(e) for e, pos in lits if not _suffix_test(e, fvar, consts) and
@@ -187,8 +188,9 @@ def r3_r4_guard_and_target(ctx, rep, R3='C15.R3', R4='C15.R4'):
               where=ctx.where(fi, u))
     outer_loops = [p for p in _parents(wl, fi.node) if isinstance(p, (ast.For, ast.While))]
     esc = [x for lp in [fl, wl] + outer_loops for x in ast.walk(lp)
-           if isinstance(x, (ast.Break, ast.Return, ast.Continue))]
-    skip = [norm(e) for e, pos in path_literals(wl, fi.node) if not norm(e).endswith('keepbytecode')]
+           if isinstance(x, (ast.Break, ast.Return))]
+    skip = [norm(e) for e, pos in guard_literals(ctx, fi, wl.iter)
+            if not norm(e).endswith('keepbytecode')]
     rep.check(not esc and not skip, R3, 'every file of every directory of every search root is examined',
               'break/continue/return inside the clean-up loops, or the walk of a search root is '
               'conditional (%s): some orphans would survive' % skip, key='guard:complete', func=FN,
